@@ -27,7 +27,7 @@ pub fn def() -> PropDef {
         streams,
         run,
         floors,
-        rule: "call lists mixing every public entry point (decode of accepted and rejected control/data/AVP-list inputs of all kinds under random options, per-type decoders, encode, get_length, hide, reveal Ok and Err, Display of every DecodeError variant) are executed in order, reversed, interleaved with unrelated calls and repeated; every call's result digest must equal its first result. The same cases run in other processes in another order (supervisor compares digests), with fds 1/2 captured and under strace (must carry 0 octets), under a counting allocator (zero net growth over identical rounds after warm-up), and on 16 threads with barrier start and yields (results equal the single-thread ones; the ticket order gives the observed interleaving). Distinct = distinct call lists; non-trivial = list exercising at least 4 different entry points.",
+        rule: "call lists mixing every public entry point (decode of accepted and rejected control/data/AVP-list inputs of all kinds under random options, per-type decoders, encode, get_length, hide, reveal Ok and Err, Display of every DecodeError variant) are executed in order, reversed, interleaved with unrelated calls and repeated; every call's result digest must equal its first result. The same cases run in other processes in another order (supervisor compares digests), with fds 1/2 captured and under strace (must carry 0 octets), under a counting allocator (zero net growth over identical rounds after warm-up), and on 16 threads with barrier start and yields (results equal the single-thread ones; the ticket order gives the observed interleaving). Distinct = distinct call lists; non-trivial = list exercising at least 4 different entry points. Also: per-call heap baseline after warm-up; snapshots of every writable static / thread-local of the codec at quiescent points; call lists include refused encodes and a reader that declines bytes() across a seam; the workloads of C01/C05/C08/C10/C13/C15/C20 re-run with fds captured under two process partitions whose merged outcome counters must be identical.",
     }
 }
 
